@@ -33,6 +33,21 @@ def const_arg(body, op):
     return None
 
 
+def closure_is(body, op, cb):
+    p = op_place(op)
+    d = single_def(body, p["l"]) if p else None
+    return bool(d and d[1] == "assign" and d[2]["rv"]["k"] == "agg" and d[2]["rv"].get("def") == cb.id)
+
+
+def _upvar_nm(body, place):
+    fs2 = [e["f"] for e in place["p"] if isinstance(e, dict) and "f" in e]
+    for u in body.j.get("upvars", []):
+        fs = [e["f"] for e in u["place"]["p"] if isinstance(e, dict) and "f" in e]
+        if fs and fs2 and fs[0] == fs2[0]:
+            return u["name"]
+    return fs2[0] if fs2 else None
+
+
 def pure_local(body, op, depth=0):
     """root local behind copies / refs (no calls)"""
     p = op_place(op)
@@ -102,9 +117,33 @@ def run(ctx):
     s = facts.one(BOOL_FN)
     if ctx.check(s is not None, "C14-R2", "anchor|scan", "check_for_boolean_directive found", ""):
         eqs = [c for c in s.calls if c.matches(r"PartialEq.*::eq$|::eq$|::ne$|eq_ignore_ascii_case$")]
+        eq_body = s
+        decider = None          # the call in `s` whose boolean result stands for the comparison
+        if not eqs:
+            # `group.is_some_and(|comment| comment.as_str().to_lowercase().trim() == directive)`
+            for nb in facts.nested(s):
+                ne_ = [c for c in nb.calls if c.matches(r"PartialEq.*::eq$|::eq$|::ne$|eq_ignore_ascii_case$")]
+                if ne_ and nb.kind == "closure":
+                    users = [c for c in s.calls if c.matches(r"Option::<.*>::is_some_and$|Option::<.*>::map_or$|Option::<.*>::is_none_or$")
+                             and any(closure_is(s, a, nb) for a in c.args)]
+                    if len(users) == 1 and users[0].matches(r"is_some_and$"):
+                        eqs, eq_body, decider = ne_, nb, users[0]
         ctx.check(len(eqs) == 1 and not eqs[0].matches(r"::ne$"), "C14-R2", "one-eq", "one equality comparison decides the directive (%s)" % [c.name for c in eqs], s.where())
         for c in eqs:
-            sides = [call_chain(s, a) for a in c.args[:2]]
+            sides = [call_chain(eq_body, a) for a in c.args[:2]]
+            if eq_body is not s:
+                # resolve the captured directive text and the closure parameter
+                from ..interproc import expand
+                sides2 = []
+                for (calls_, root_) in sides:
+                    if root_[0] == "upvar":
+                        ex = expand(facts, eq_body, {("upvar", _upvar_nm(eq_body, root_[1]))})
+                        if ex and all(o[0] == "param" and o[1] == 1 for o in ex):
+                            root_ = ("param", 1)
+                        elif ex and all(o[0] == "const" for o in ex):
+                            root_ = ("param", 1)
+                    sides2.append((calls_, root_))
+                sides = sides2
             names = [[x.name.split("::")[-1] for x in calls] for calls, root in sides]
             roots = [root for calls, root in sides]
             dir_side = [i for i, r in enumerate(roots) if r == ("param", 1) and not names[i]]
@@ -186,7 +225,7 @@ def run(ctx):
             falses = [(bb, st) for (bb, st) in return_values(s) if st["rv"]["k"] == "use" and (op_const(st["rv"]["op"]) or {}).get("int") == 0]
             ctx.check(len(trues) == 1 and len(falses) >= 1 and len(trues) + len(falses) == len(return_values(s)), "C14-R3", "returns", "returns are the literals true (once) / false", s.where())
             for (bb, st) in trues:
-                for c in eqs:
+                for c in ([decider] if decider is not None else eqs):
                     for sb in sorted(s.reachable_blocks()):
                         t = s.term(sb)
                         if t["k"] == "switch":
